@@ -457,3 +457,7 @@ impl<'env> Context<'env> {
         Ok(())
     }
 }
+
+#[cfg(kani)]
+#[path = "/verif/kani/vm_context.rs"]
+mod verif_kani;
